@@ -72,6 +72,21 @@ function "list" {
   variadic_param = items
   result         = items
 }
+function "first" {
+  params         = [x]
+  variadic_param = more
+  result         = x
+}
+function "rest" {
+  params         = [h]
+  variadic_param = x
+  result         = x
+}
+function "vn" {
+  params         = []
+  variadic_param = n
+  result         = n
+}
 `
 
 func toCtyType(t *Type) cty.Type {
